@@ -71,6 +71,16 @@ func (s *TieredCompactionStrategy) SelectCompaction() (*CompactionTask, error) {
 	return nil, nil
 }
 
+// hasFilesBelow reports whether any level deeper than the given one holds files
+func (s *TieredCompactionStrategy) hasFilesBelow(level int) bool {
+	for l, files := range s.levels {
+		if l > level && len(files) > 0 {
+			return true
+		}
+	}
+	return false
+}
+
 // selectL0Compaction selects files from L0 for compaction
 func (s *TieredCompactionStrategy) selectL0Compaction() (*CompactionTask, error) {
 	// Require at least some files in L0
@@ -126,6 +136,7 @@ func (s *TieredCompactionStrategy) selectL0Compaction() (*CompactionTask, error)
 		},
 		TargetLevel:        1,
 		OutputPathTemplate: filepath.Join(s.sstableDir, "%d_%06d_%020d.sst"),
+		KeepTombstones:     s.hasFilesBelow(1),
 	}
 
 	return task, nil
@@ -151,6 +162,7 @@ func (s *TieredCompactionStrategy) selectPromotionCompaction(level int) (*Compac
 		},
 		TargetLevel:        level + 1,
 		OutputPathTemplate: filepath.Join(s.sstableDir, "%d_%06d_%020d.sst"),
+		KeepTombstones:     s.hasFilesBelow(level + 1),
 	}
 
 	return task, nil
@@ -184,6 +196,7 @@ func (s *TieredCompactionStrategy) selectOverlappingCompaction(level int) (*Comp
 		},
 		TargetLevel:        level + 1,
 		OutputPathTemplate: filepath.Join(s.sstableDir, "%d_%06d_%020d.sst"),
+		KeepTombstones:     s.hasFilesBelow(level + 1),
 	}
 
 	return task, nil
